@@ -272,6 +272,10 @@ package server
 
 //@ func (*LockManagerWaitQueue).RePushPriorityRingQueue
 //@   requires self != nil
+// every entry of the FIFO window moves over, answered or not: an entry holds a reference of its request (and of the
+// key) that only the pop from the queue gives back
+//@   loop#1 invariant ringQueue != nil
+//@   loop#1 backedge C17.repush.every-entry,C04.repush.every-entry: calls(LockManagerPriorityRingQueue.Push) == athead(calls(LockManagerPriorityRingQueue.Push)) + 1
 //@   at call ILockManagerRingQueue.Pop assert C04.repush.order,C20.repush.order: isnil(self.fastQueue) || len(self.fastQueue) == 0 || self.fastIndex < 0 || self.fastIndex >= len(self.fastQueue)
 //@   ensures forallref(l, Lock, lockSame(l))
 //@   modifies LockManagerWaitQueue.*, LockManagerRingQueue.*, LockManagerPriorityRingQueue.*, LockManagerPriorityRingQueueNode.*, E_LJPserver_Lock, E_Pserver_Lock, E_Pserver_LockManagerPriorityRingQueueNode, E_int32
@@ -776,6 +780,7 @@ package server
 // removals included), not the number of live entries: popping fewer leaves live requests behind in a recycled queue
 //@ func (*LongWaitLockQueue).Len
 //@   trusted queue internals (long-wait table), subject of C20
+//@   ghost lastLongLen[ref(self)] = result
 //@   ensures C20.longwait.len,C05.longwait.len,C06.longwait.len: calls(LockQueue.Len) == 1
 //@   modifies nothing
 
@@ -787,6 +792,10 @@ package server
 //@   at call LockQueue.Push assert C05.neverearly: !lock.timeouted && implies(calls(LongWaitLockQueue.Len) == 0, lock.timeoutTime <= now)
 //@   at call AddTimeOut assert C05.recheck,C03.recheck: !lock.timeouted && lock.timeoutTime > now
 //@   loop#1 invariant clockSane(self) && (lock == nil || (wheelEntry(self, lock)))
+// the sweep pops as many slots as the bucket's deque holds (Len: holes left by removals included), so every live
+// member is reached before the bucket is recycled
+//@   loop#2 entry C05.sweep.drain-all,C17.sweep.drain-all: calls(LongWaitLockQueue.Len) == 1 && longLockCount == ghost.lastLongLen[ref(longLocks)]
+//@   loop#2 backedge C05.sweep.drain-all,C17.sweep.drain-all: longLockCount == i32(athead(longLockCount) - 1) && calls(LongWaitLockQueue.Pop) == athead(calls(LongWaitLockQueue.Pop)) + 1
 //@   loop#2 invariant clockSane(self)
 //@   loop#3 invariant lock == nil || wheelEntry(self, lock)
 //@   modifies all
@@ -802,6 +811,8 @@ package server
 // the leader (a follower's replayed holds) is doExpried's decision
 //@   at call doExpried assert C10.sweep.unforced,C06.sweep.unforced: !arg2
 //@   loop#1 invariant clockSane(self) && (lock == nil || (wheelEntry(self, lock) && implies(!lock.expried, lock.command != nil)))
+//@   loop#2 entry C06.sweep.drain-all,C17.sweep.drain-all: calls(LongWaitLockQueue.Len) == 1 && longLockCount == ghost.lastLongLen[ref(longLocks)]
+//@   loop#2 backedge C06.sweep.drain-all,C17.sweep.drain-all: longLockCount == i32(athead(longLockCount) - 1) && calls(LongWaitLockQueue.Pop) == athead(calls(LongWaitLockQueue.Pop)) + 1
 //@   loop#2 invariant clockSane(self)
 //@   loop#3 invariant lock == nil || wheelEntry(self, lock)
 //@   modifies all
@@ -970,6 +981,9 @@ package server
 // C18/C13: a closed connection hands a reply to the connection that owns its client id now, never to itself (the two
 // reply methods call each other: routing a reply to the closing connection itself never returns)
 //@   at call ProcessLockResultCommandLocked assert C18.reply.not-to-itself: !(istype(serverProtocol, *BinaryServerProtocol) && ref(serverProtocol) == self)
+// a reply of a closed connection is re-routed only on behalf of a client id this connection announced (INIT): a
+// connection that never did has the all-zero id, which names nobody - its replies are dropped
+//@   at call ProcessLockResultCommandLocked assert C18.reply.only-announced-id,C03.reply.only-announced-id: self.inited
 //@   at call ProcessLockResultCommandLocked assert C13.reply.not-to-itself: !(istype(serverProtocol, *BinaryServerProtocol) && ref(serverProtocol) == self)
 //@   at call LoadUint32 assert C14.result.head: resultFrameHead(self.wbuf, command, result, !isnil(data))
 //@   at call LoadUint32 assert C14.result.ids: resultFrameIds(self.wbuf, command)
@@ -995,6 +1009,9 @@ package server
 
 //@ func (*TransparencyBinaryServerProtocol).ProcessParse
 //@   requires self != nil
+// a request the follower cannot hand to the leader (no leader connection, write failed) is refused with STATE_ERROR
+// under its own ids - the only reply a non-leader makes up itself (besides UNKNOWN_DB for the reserved database 0xff)
+//@   at call ProcessLockResultCommand assert C10.forward.refusal-code,C19.forward.refusal-code,C03.forward.refusal-code: arg1 == lockCommand && (arg2 == protocol.RESULT_STATE_ERROR || (arg2 == protocol.RESULT_UNKNOWN_DB && (lockCommand.DbId == 0xff || self.slock.state == STATE_LEADER))) && arg3 == 0 && arg4 == 0 && isnil(arg5)
 //@   at call ProcessParseLockData assert C14.transparency.decode-data: lockCommand != nil && inlineLockDecode(lockCommand, buf)
 //@   at call LockDB.Lock assert C10.forward.same-request,C14.transparency.decode-lock: implies(calls(ProcessParseLockData) == 0, inlineLockDecode(lockCommand, buf) && arg2 == lockCommand)
 //@   at call LockDB.UnLock assert C10.forward.same-request,C14.transparency.decode-unlock: implies(calls(ProcessParseLockData) == 0, inlineLockDecode(lockCommand, buf) && arg2 == lockCommand)
@@ -1075,6 +1092,14 @@ package server
 //@   requires C20.ctor: baseNodeSize >= 1 && nodeSize >= 1 && nodeSize < 0x40000000 && queueSize >= 1 && queueSize <= 0x3ffffff
 //@   ensures C20.new: qInv(result) && qEmpty(result) && result.headNodeIndex == 0 && result.headQueueIndex == 0 && result.nodeSize == nodeSize && fresh(result)
 
+//@ func (*LockQueue).Resize
+//@   requires C20.inv: qInv(self)
+//@   loop#1 invariant self.baseNodeSize <= i && i <= self.headNodeIndex && qStorageSame(self) && qHeadSame(self) && qTailSame(self) && forall(k, self.headNodeIndex, self.nodeSize, self.queues[k] == old(self.queues[k]) && self.nodeQueueSizes[k] == old(self.nodeQueueSizes[k]))
+//@   loop#2 invariant self.headNodeIndex <= i && i <= self.tailNodeIndex + 1 && moveIndex == self.headNodeIndex - self.baseNodeSize && moveIndex >= 1 && qStorageSame(self) && qHeadSame(self) && qTailSame(self) && self.nodeIndex == self.baseNodeSize - 1 + (i - self.headNodeIndex) && forall(k, self.headNodeIndex, i, self.queues[k - moveIndex] == old(self.queues[k]) && self.nodeQueueSizes[k - moveIndex] == old(self.nodeQueueSizes[k])) && forall(k, i, self.tailNodeIndex + 1, self.queues[k] == old(self.queues[k]) && self.nodeQueueSizes[k] == old(self.nodeQueueSizes[k]))
+//@   ensures C20.resize.moved: implies(old(self.headNodeIndex) > old(self.baseNodeSize), qResizeMoved(self) && self.headNodeIndex == old(self.baseNodeSize) && self.tailNodeIndex == old(self.baseNodeSize) + old(self.tailNodeIndex) - old(self.headNodeIndex) && self.nodeIndex == self.tailNodeIndex)
+//@   ensures C20.resize.noop: implies(old(self.headNodeIndex) <= old(self.baseNodeSize), qHeadSame(self) && qTailSame(self) && self.nodeIndex == old(self.nodeIndex))
+//@   safe C20
+
 //@ func (*LockQueue).Push
 //@   requires C20.inv: qInv(self) && qBounded(self)
 //@   ensures forallref(l, Lock, lockSame(l))
@@ -1152,6 +1177,18 @@ package server
 //@   requires C20.ctor: baseNodeSize >= 1 && nodeSize >= 1 && nodeSize < 0x40000000 && queueSize >= 1 && queueSize <= 0x3ffffff
 //@   ensures C20.new: qInv(result) && qEmpty(result) && result.headNodeIndex == 0 && result.headQueueIndex == 0 && result.nodeSize == nodeSize && fresh(result)
 
+// Resize slides the occupied nodes [head, tail] down to start at baseNodeSize and frees the slots above: every node
+// (and its size) arrives unchanged at its new slot whatever the distance moved is - the source and destination
+// ranges overlap when the queue holds more nodes than it moves by
+//@ spec func qResizeMoved(q) = forall(k, 0, old(q.tailNodeIndex) - old(q.headNodeIndex) + 1, q.queues[old(q.baseNodeSize) + k] == old(q.queues[q.headNodeIndex + k]) && q.nodeQueueSizes[old(q.baseNodeSize) + k] == old(q.nodeQueueSizes[q.headNodeIndex + k]))
+//@ func (*LockCommandQueue).Resize
+//@   requires C20.inv: qInv(self)
+//@   loop#1 invariant self.baseNodeSize <= i && i <= self.headNodeIndex && qStorageSame(self) && qHeadSame(self) && qTailSame(self) && forall(k, self.headNodeIndex, self.nodeSize, self.queues[k] == old(self.queues[k]) && self.nodeQueueSizes[k] == old(self.nodeQueueSizes[k]))
+//@   loop#2 invariant self.headNodeIndex <= i && i <= self.tailNodeIndex + 1 && moveIndex == self.headNodeIndex - self.baseNodeSize && moveIndex >= 1 && qStorageSame(self) && qHeadSame(self) && qTailSame(self) && self.nodeIndex == self.baseNodeSize - 1 + (i - self.headNodeIndex) && forall(k, self.headNodeIndex, i, self.queues[k - moveIndex] == old(self.queues[k]) && self.nodeQueueSizes[k - moveIndex] == old(self.nodeQueueSizes[k])) && forall(k, i, self.tailNodeIndex + 1, self.queues[k] == old(self.queues[k]) && self.nodeQueueSizes[k] == old(self.nodeQueueSizes[k]))
+//@   ensures C20.resize.moved: implies(old(self.headNodeIndex) > old(self.baseNodeSize), qResizeMoved(self) && self.headNodeIndex == old(self.baseNodeSize) && self.tailNodeIndex == old(self.baseNodeSize) + old(self.tailNodeIndex) - old(self.headNodeIndex) && self.nodeIndex == self.tailNodeIndex)
+//@   ensures C20.resize.noop: implies(old(self.headNodeIndex) <= old(self.baseNodeSize), qHeadSame(self) && qTailSame(self) && self.nodeIndex == old(self.nodeIndex))
+//@   safe C20
+
 //@ func (*LockCommandQueue).Push
 //@   requires C20.inv: qInv(self) && qBounded(self)
 //@   ensures C20.push.inv: qInv(self)
@@ -1225,6 +1262,14 @@ package server
 //@ func NewLockManagerQueue
 //@   requires C20.ctor: baseNodeSize >= 1 && nodeSize >= 1 && nodeSize < 0x40000000 && queueSize >= 1 && queueSize <= 0x3ffffff
 //@   ensures C20.new: qInv(result) && qEmpty(result) && result.headNodeIndex == 0 && result.headQueueIndex == 0 && result.nodeSize == nodeSize && fresh(result)
+
+//@ func (*LockManagerQueue).Resize
+//@   requires C20.inv: qInv(self)
+//@   loop#1 invariant self.baseNodeSize <= i && i <= self.headNodeIndex && qStorageSame(self) && qHeadSame(self) && qTailSame(self) && forall(k, self.headNodeIndex, self.nodeSize, self.queues[k] == old(self.queues[k]) && self.nodeQueueSizes[k] == old(self.nodeQueueSizes[k]))
+//@   loop#2 invariant self.headNodeIndex <= i && i <= self.tailNodeIndex + 1 && moveIndex == self.headNodeIndex - self.baseNodeSize && moveIndex >= 1 && qStorageSame(self) && qHeadSame(self) && qTailSame(self) && self.nodeIndex == self.baseNodeSize - 1 + (i - self.headNodeIndex) && forall(k, self.headNodeIndex, i, self.queues[k - moveIndex] == old(self.queues[k]) && self.nodeQueueSizes[k - moveIndex] == old(self.nodeQueueSizes[k])) && forall(k, i, self.tailNodeIndex + 1, self.queues[k] == old(self.queues[k]) && self.nodeQueueSizes[k] == old(self.nodeQueueSizes[k]))
+//@   ensures C20.resize.moved: implies(old(self.headNodeIndex) > old(self.baseNodeSize), qResizeMoved(self) && self.headNodeIndex == old(self.baseNodeSize) && self.tailNodeIndex == old(self.baseNodeSize) + old(self.tailNodeIndex) - old(self.headNodeIndex) && self.nodeIndex == self.tailNodeIndex)
+//@   ensures C20.resize.noop: implies(old(self.headNodeIndex) <= old(self.baseNodeSize), qHeadSame(self) && qTailSame(self) && self.nodeIndex == old(self.nodeIndex))
+//@   safe C20
 
 //@ func (*LockManagerQueue).Push
 //@   requires C20.inv: qInv(self) && qBounded(self)
@@ -1427,7 +1472,16 @@ package server
 //@   at call lockAcked#2 assert C11.flush.verdict: arg2 == false && !isnil(err)
 //@   at call lockAcked#3 assert C11.flush.verdict: arg2 == false && !isnil(err)
 //@   modifies all
+// C16/C08: a rotation that cannot open the next append file leaves the log where it was: the current file index
+// still names the newest file that exists (the compaction treats every file below the current index as a closed
+// input, and the next rotation attempt derives the next name from it)
 //@ func (*Aof).RewriteAofFile
+//@   requires self != nil
+//@   ensures C16.rotate.failed-keeps-index,C08.rotate.failed-keeps-index: implies(!isnil(result), self.aofFileIndex == old(self.aofFileIndex))
+//@   ensures C16.rotate.next-index,C08.rotate.next-index: implies(isnil(result), self.aofFileIndex == ite(u32(old(self.aofFileIndex) + 1) == 0, 1, u32(old(self.aofFileIndex) + 1)) && self.aofFileOffset == 0 && self.aofFile != nil)
+//@   at call Aof.Flush after assume self.aofFileIndex == before(self.aofFileIndex) && self.aofFile == before(self.aofFile)
+//@   at call AofFile.Close after assume self.aofFileIndex == before(self.aofFileIndex) && self.aofFile == before(self.aofFile)
+//@   at call rewriteAofFiles assert C16.rotate.compaction-after-switch: startReWrite && self.aofFile != nil && self.aofFile != old(self.aofFile)
 //@   modifies all
 //@ func (*ReplicationManager).PushLock
 //@   modifies all
@@ -1754,13 +1808,17 @@ package server
 //@ func (*Aof).LoadAndInit
 //@   requires self != nil
 //@   at call ParseUint assert C08.resume.newest,C07.resume.newest: arg0 == appendFiles[len(appendFiles)-1][11:]
+// C16: the start-up compaction reads the closed append files and asks the engine which holds still exist; it is
+// started only once every record the load has replayed is applied (the load channel is drained), otherwise it
+// drops the records of holds that are not there yet
+//@   at call rewriteAofFiles assert C16.start.compaction-after-load: calls(WaitFlushAofChannel) >= 1
 //@   modifies all
 
 // C10/C03: on a follower, a result frame from the leader is handed to the text client only when it answers the
 // client's outstanding request: the outstanding id is cleared only by a frame that carries exactly that id
 //@ func (*TransparencyBinaryClientProtocol).processTextProcotol
 //@   requires self != nil
-//@   ensures C10.relay.match,C03.relay.match: forallref(t, TextServerProtocol, implies(t.lockRequestId != old(t.lockRequestId), istype(command, *protocol.LockResultCommand) && old(t.lockRequestId) == astype(command, *protocol.LockResultCommand).ResultCommand.RequestId))
+//@   ensures C10.relay.match,C03.relay.match,C18.relay.match: forallref(t, TextServerProtocol, implies(t.lockRequestId != old(t.lockRequestId), istype(command, *protocol.LockResultCommand) && old(t.lockRequestId) == astype(command, *protocol.LockResultCommand).ResultCommand.RequestId))
 //@   modifies all
 
 // C03: a text connection parks a reply for its handler only when the handler is waiting for that very request (PUSH is
